@@ -326,6 +326,17 @@ func (c *Ctx) mcChunk(cfg *MCConfig, gs []*gast.Grammar, base int, rng *rand.Ran
 			if !mb.Capped && len(compareModel(cfg.Compare, cs, r, mb)) == 0 {
 				v.Sig = append(v.Sig, "F20-memo-predicate-labels")
 			}
+			if cfg.Compare&CmpNoMatch != 0 {
+				// known finding F23: a cache hit does not record again what the cached evaluation recorded
+				// for the farthest failure; when the first evaluation ran under the other predicate
+				// polarity the expected set loses (or keeps) entries. The observation equals the model
+				// variant that caches every (expression, offset) result.
+				mc := ref.Run(cs.u.G, cs.in, ref.Opts{Entry: cs.entry, File: cs.os.File, AllowInvalid: cs.os.AllowInvalid, NoRecover: cs.os.NoRecover,
+					MaxExpr: cs.os.MaxExpr, MaxEvents: 4000, StepCap: 400000, MemoAll: true, Init: cs.os.Init})
+				if !mc.Capped && len(compareModel(cfg.Compare, cs, r, mc)) == 0 {
+					v.Sig = append(v.Sig, "F23-memo-expected-set")
+				}
+			}
 			if cs.u.G.UsesState {
 				// known finding F22: a memoized result is reused without the state changes made while it
 				// was computed; the observation (block trace included) equals the model variant that
